@@ -171,3 +171,9 @@ func init() {
 		Rule: "one case = a small or medium graph (result sizes around the 4 serializer workers, their 10-slot queues and the 40-slot merge buffer, scaled) and a sequence of 2..7 job operations: submit a deterministic traversal of any result type (vertices, edges, counts, selections, renders, paths, aggregations) and poll on the simulated clock until COMPLETE, view, resume a job with the rest of a split program, search with unrelated and with extending queries, list, delete, restart the job storage over the same directory; serializer workers optionally slowed by seeded sleeps; all under a seeded schedule. non-trivial = at least 2 operations; distinct = distinct (graph, operations, configuration)",
 		Assumptions: []string{"job files are real files in a scratch directory (no storage seam in jobstorage); process death between file operations is not injected in this version, un-fsynced data loss is not modelled", "programs with limit/skip/range/distinct(field) are not used for jobs (which rows they keep is unspecified)", "the direct traversal through the same server is the reference for stored and resumed rows"}}
 }
+
+func init() {
+	props["C15"] = &propCfg{Level: "exploration", QuickRuns: 3000, QuickS: 60, ThoroughRuns: 300000, ThoroughS: 1500,
+		Rule: "one case = 1..3 vertex tables (several may share a label) and 0..3 link tables in either direction (rows with missing, empty, non-string and dangling link fields), a mapping of tables to id prefixes/labels and link tables to edge types, and a typed traversal from the C01 generator biased to leading hasLabel/id starts; tables are served by the real SimpleTableServicer over DriverPreLoad through the simulated transport with seeded per-message latency, under a seeded schedule and scaled buffers. Judged: refql on the graph materialised from tables+mapping (exact multiset / bound arithmetic), stream closure, refusal of write calls. non-trivial = non-empty reference result; distinct = distinct (tables, mapping, program, configuration, decision-sequence hash)",
+		Assumptions: []string{"edge ids follow the driver's own convention (from-label-to), which the property does not fix; repeated links within one link table (same id) are not generated", "gripper.DriverCache is not in the loop: at this commit it lacks GetFieldLinks, does not implement gripper.Driver and cannot be served by SimpleTableServicer", "the gRPC transport is the in-process simnet"}}
+}
